@@ -14,6 +14,7 @@ C06, deepening: the cut theorem for *frame classes*.
 -/
 import PrimaiteModel.Model.FilterClass
 import PrimaiteModel.Props.C06
+import PrimaiteModel.Gen.FilterSoft
 namespace Primaite.Cut
 
 variable {N Port F S : Type} [DecidableEq N]
@@ -971,6 +972,62 @@ theorem C06_denyAll_is_class_any (a : Acl) (h : denyAllCheck a = true) : denyCla
         obtain ⟨⟨⟨⟨⟨h1, h2⟩, h3⟩, h4⟩, h5⟩, h6⟩ := h
         simp [denyScan, h1, covers, coversOpt, h2, h3, h4, h5, h6]
   exact key a.rules h
+
+
+/-! ## 7. `SoftKeeps` for the modelled software, and the ties of this file to the source -/
+
+/-- **The modelled router software never re-enables an interface**: `routerArpSoft` writes only states that differ from
+the one it was given in the opaque software part, so every predicate that does not read `sw` (e.g. "the boundary
+interfaces are disabled") is kept whenever the base software keeps it. -/
+theorem C06_routerArpSoft_keeps (r : RouterArp W) (base : Soft W) (P : Node W → Prop)
+    (hsw : ∀ s x, P s → P { s with sw := x }) (hb : SoftKeeps base P) : SoftKeeps (routerArpSoft r base) P := by
+  refine ⟨?_, ?_, hb.dmzLookup, hb.switchFwd⟩
+  · intro s p f hs
+    simp only [routerArpSoft]
+    split
+    · simp only [arpSession]
+      have h1 := hsw s (r.sessRx s p f) hs
+      split
+      · exact Pres.done h1
+      · split
+        · exact Pres.done h1
+        · split
+          · exact Pres.done h1
+          · split
+            · exact Pres.done h1
+            · split
+              · exact Pres.done h1
+              · split
+                · exact Pres.done h1
+                · exact Pres.send (hsw s _ hs) (fun s' hs' => Pres.done hs')
+    · exact hb.session s p f hs
+  · intro s p f hs
+    simp only [routerArpSoft]
+    split
+    · split
+      · exact Pres.done hs
+      · split
+        · exact Pres.done hs
+        · exact hb.process s p f hs
+    · exact hb.process s p f hs
+
+/-- **No software re-enables an interface while processing frames** (the `SoftKeeps` hypothesis, tied to the source):
+the regenerated list of every `enable()` / `enable_port()` / `.enabled = True` site is the known one, and none of them
+sits in a function reachable from a `receive_frame` (name-based call graph over simulator/, an over-approximation)
+without passing the request dispatcher.  The dispatcher IS reachable (Terminal / C2 command execution): an attacker
+who can log into the blocking element and issue requests is the application-level relay DESIGN excludes. -/
+theorem C06_gen_enable_sites :
+    Gen.FilterSoft.enableSitesOnFramePath = [] ∧ Gen.FilterSoft.requestDispatchOnFramePath = true ∧
+    Gen.FilterSoft.enableSites = knownEnableSites := by decide
+
+/-- `ARP.send_arp_request` has the shape `arpRequestTarget` / `arpRequestFrame` model: cached → nothing; an address in no
+interface network is replaced by the default gateway (or nothing is sent); network and broadcast addresses are refused;
+the packet's sender is the outbound interface. -/
+theorem C06_gen_send_arp_request : Gen.FilterSoft.sendArpRequest = sendArpRequestOrder := by decide
+
+/-- `RouterARP._process_arp_request`, `ARP.send_arp_reply`, `RouterSessionManager.resolve_outbound_network_interface` and
+the first two guards of `Router.process_frame` have the shape `routerArpSoft` models. -/
+theorem C06_gen_router_arp : Gen.FilterSoft.routerArp = routerArpOrder := by decide
 
 
 end Primaite.Filter
